@@ -440,6 +440,12 @@ def load_from_file(cfg_file):
             if dfn.config_key_exists(sec, var):
                 convfunc = dfn.get_config_value_func(sec, var)
                 val = convfunc(val)
+                if (isinstance(val, str)
+                        and dfn.get_config_value_type(sec, var)
+                        is numbers.Number):
+                    # There is no converter function for general numbers
+                    # (e.g. "[online_filter]: deform min").
+                    val = float(val)
             else:
                 # unknown parameter (e.g. plotting in Shape-Out), guess type
                 var, val = keyval_str2typ(var, val)
